@@ -166,8 +166,10 @@ func (e WorkloadGenerator) generateDeltasOndemand(
 
 	if len(addresses) == 0 {
 		if isReq {
-			// We need to respond for requests, even if we have nothing to respond with
-			return make(model.Resources, 0), nil, model.XdsLogDetails{}, false, nil
+			// We need to respond for requests, even if we have nothing to respond with.
+			// This is a delta answer (nothing added, nothing removed): reporting it as such keeps the caller from
+			// treating it as a state-of-the-world answer and removing everything the connection watches.
+			return make(model.Resources, 0), nil, model.XdsLogDetails{}, true, nil
 		}
 		// For NOP pushes, no need
 		return nil, nil, model.XdsLogDetails{}, false, nil
